@@ -6,7 +6,7 @@ ROOT = os.path.dirname(os.path.dirname(os.path.abspath(__file__)))
 sys.path.insert(0, ROOT)
 from vp import manifest_levels as ML
 
-PERSONA_PROPS = {'C01', 'C02', 'C03', 'C04', 'C05', 'C08', 'C10', 'C11', 'C12', 'C13', 'C14', 'C16', 'C17', 'C19', 'C20'}
+PERSONA_PROPS = {'C01', 'C02', 'C03', 'C04', 'C05', 'C06', 'C07', 'C08', 'C09', 'C10', 'C11', 'C12', 'C13', 'C14', 'C16', 'C17', 'C19', 'C20'}
 props = [json.loads(l) for l in open(os.path.join(ROOT, 'properties.jsonl'))]
 checks, na = [], []
 for p in props:
@@ -21,7 +21,7 @@ for p in props:
             replay_cmd_template='./check --replay {path}',
             engine=c['engine'],
             level_claimed=dict(category=ML.LEVELS[pid], text=c['text'], design_ref=c['design_ref']),
-            level_note=c['note'] + (' Bounded representation- / query-history-independence contracts (contracts/personas.py) run with this check and are counted under bounded_cases, never as proved.' if pid in PERSONA_PROPS else ''),
+            level_note=c['note'] + (' Bounded representation- / history-independence contracts (contracts/personas.py) and the state-reconstruction oracle over random operation histories (contracts/fuzz.py) run with this check and are counted under bounded_cases, never as proved.' if pid in PERSONA_PROPS else ''),
             technique=c['technique'],
         ))
     else:
